@@ -5,6 +5,10 @@ import itertools
 
 KINDS = ["argument", "authentication", "authorization", "communication", "timeout", "configuration", "internal",
          "norule"]
+# values of the request's Accept header (None = no header); the last four make the content negotiation of the HTTP
+# error translator fail (unsupported types, malformed values)
+ACCEPTS = [None, "*/*", "application/json", "text/plain", "text/html", "application/xml",
+           "text/plain;q=0.5, image/png", "image/png", "application/pdf, image/*", "foobar", "application/json;q=foo"]
 CEL_TYPES = ["authentication_error", "authorization_error", "communication_error", "internal_error",
              "precondition_error"]
 
@@ -115,14 +119,18 @@ def gen_doc(rng, prefix, is_default):
 def gen_case(rng):
     has_rule = rng.random() < 0.92
     has_default = rng.random() < 0.35
+    cfg = dict(rng.choice(CFGS))
+    if rng.random() < 0.45:
+        cfg["verbose"] = True
     return {
         "fam": "pipeline",
-        "cfg": rng.choice(CFGS),
+        "cfg": cfg,
         "rule": gen_doc(rng, "", False) if has_rule else None,
         "default": gen_doc(rng, "d", True) if has_default else None,
         "hit": rng.random() < 0.88,
         "upstream": rng.choice([200, 200, 201, 204, 404, 500]),
         "style": rng.randrange(4),
+        "accept": None if rng.random() < 0.3 else rng.choice(ACCEPTS),
     }
 
 
@@ -173,8 +181,11 @@ def small_scope_cases():
             "eh": [dict(e, id=f"e{i}") for i, e in enumerate(el)],
             "backend": True,
         }
-        cases.append({"fam": "pipeline", "cfg": {}, "rule": doc, "default": None, "hit": True, "upstream": 200,
-                      "style": len(cases) % 4})
+        k = len(cases)
+        # verbosity and Accept header cycle through all combinations (22 is coprime to the sizes of the other axes'
+        # strides, so every outcome class meets every combination somewhere in the enumeration)
+        cases.append({"fam": "pipeline", "cfg": {"verbose": True} if k % 2 else {}, "rule": doc, "default": None,
+                      "hit": True, "upstream": 200, "style": k % 4, "accept": ACCEPTS[(k // 2) % len(ACCEPTS)]})
     return cases
 
 
